@@ -1209,7 +1209,11 @@ class NDCube(NDCubeBase):
                     handle_mask=handle_mask, new_unit=new_unit, **kwargs)
 
         # Resample WCS
-        new_wcs = ResampledLowLevelWCS(self.wcs.low_level_wcs, bin_shape[::-1])
+        # The centre of a new pixel is the centre of the block of original pixels it aggregates,
+        # i.e. new pixel j covers original pixels j*f to (j+1)*f-1 whose centre is j*f + (f-1)/2.
+        bin_offset = (bin_shape - 1) / 2
+        new_wcs = ResampledLowLevelWCS(self.wcs.low_level_wcs, bin_shape[::-1],
+                                       offset=bin_offset[::-1])
 
         # Reform NDCube.
         new_cube = type(self)(
@@ -1223,7 +1227,8 @@ class NDCube(NDCubeBase):
         new_cube._global_coords = self._global_coords
         # Reconstitute extra coords
         if not self.extra_coords.is_empty:
-            new_cube._extra_coords = self.extra_coords.resample(bin_shape, ndcube=new_cube)
+            new_cube._extra_coords = self.extra_coords.resample(bin_shape, offset=bin_offset,
+                                                                ndcube=new_cube)
 
         return new_cube
 
